@@ -142,11 +142,24 @@ pub fn lex(source: &str, source_filename: &str) -> Vec<LexedToken>
 {
 	let mut tokens = Vec::new();
 	let mut offset = 0;
+	let mut rest = source;
 	for (i, line) in source.lines().enumerate()
 	{
 		// Syntax should remain such that each line can be lexed independently.
 		lex_line(line, source_filename, offset, 1 + i, &mut tokens);
-		offset += line.chars().count() + 1;
+		// Advance past the line and its line ending, which is two characters
+		// if the line was terminated by a carriage return and a line feed.
+		rest = &rest[line.len()..];
+		let line_ending_len = if rest.starts_with("\r\n")
+		{
+			2
+		}
+		else
+		{
+			1
+		};
+		rest = rest.get(line_ending_len..).unwrap_or("");
+		offset += line.chars().count() + line_ending_len;
 	}
 	if source.len() == 0
 	{
